@@ -4,16 +4,16 @@ CFG = dict(
     run_targets=["C17/Run.vo"], proof_targets=["C17/Props.vo"], props="C17/Props.v",
     gen_obligations=["Inst.gen_sup_spec: the regenerated supersedes is the strict lexicographic order on (incarnation, timestamp)"],
     crate="nvh_c17",
-    header=H + "From NV.C17 Require Import Types Model Run.\nOpen Scope N_scope.",
-    kinds={"trace": ("trace_case", "check_trace"), "conv": ("conv_case", "check_conv"), "global": ("global_case", "check_global")},
+    header=H + "From NV.C17 Require Import Types Model Mgr Run.\nOpen Scope N_scope.",
+    kinds={"trace": ("trace_case", "check_trace"), "conv": ("conv_case", "check_conv"), "global": ("global_case", "check_global"), "mgr": ("mgr_case", "check_mgr")},
     known_classes={0: "tie-conflict"},
-    rule="seeded op sequences / update sets over 2-4 members with small incarnation and timestamp ranges (ties frequent), run on the real LWWMembershipState and on the Gallina model",
+    rule="seeded op sequences / update sets over 2-4 members with small incarnation and timestamp ranges (ties frequent), run on the real LWWMembershipState and on the Gallina model; seeded schedules (rounds, local suspicions, deliveries with duplication/reordering/loss) on clusters of 2-4 real GossipMembershipManagers",
     trusted_base=COMMON_TB + [
-        "modelled, not verified: HashMap as an association list (iteration order never observed: dumps are taken per member id); u64 arithmetic as unbounded N (clock overflow at 2^64 not modelled); updated_at (wall clock) ignored; GossipMembershipManager's transport/callback layer around LWWMembershipState is outside the model",
+        "modelled, not verified: HashMap as an association list (iteration order never observed: dumps are taken per member id); u64 arithmetic as unbounded N (clock overflow at 2^64 not modelled); updated_at (wall clock) ignored; GossipMembershipManager (Mgr.v): handle_gossip for Sync/Suspect/Alive/PingReq/PingAck, gossip_round with suspicion expiry, suspect_node, add_peer are modelled and compared with real managers joined by a captured transport; outside the model: signed envelopes, geometric target selection (fanout is set above the peer count so every peer is a target), callbacks, flap/heal/bidirectional-probe bookkeeping (none touches the membership view), wall-clock suspicion timeouts (configured to 'all expired' or 'none expired'); the HashMap order in which expire_suspicions fails several members is read off the implementation's timestamps and handed to the model",
     ],
     assumptions=["update_local with a caller-chosen incarnation is outside the property's listed events (it can lower an incarnation by construction)"],
 )
 MANIFEST = dict(
-    text="Convergence (same set of updates => same view, any order/grouping/repetition, outside the known tie-conflict class), never-backwards (clock and incarnations) and the failed-incarnation bound are Coq theorems for all inputs over the LWW membership model; the model's supersedes is regenerated from gossip.rs on every run and its order property re-proved; the model is compared with the real LWWMembershipState on seeded traces, delivery pairs (all orders of small sets) and multi-replica runs.",
-    note="Trusted: Coq kernel, rs2v.py for one function, harness + driver. Modelled not verified: HashMap as association list, u64 as unbounded N, the GossipMembershipManager layer (transport, callbacks, signed envelopes) around LWWMembershipState.",
+    text="Convergence (same set of updates => same view, any order/grouping/repetition, outside the known tie-conflict class), never-backwards (clock and incarnations) and the failed-incarnation bound are Coq theorems for all inputs over the LWW membership model; the model's supersedes is regenerated from gossip.rs on every run and its order property re-proved; the model is compared with the real LWWMembershipState on seeded traces, delivery pairs (all orders of small sets) and multi-replica runs. The never-backwards and failed-incarnation clauses are also proved one layer up, for clusters of GossipMembershipManagers exchanging Sync/Suspect/Alive/Ping messages under any schedule, and that model is compared with real managers joined by a captured transport.",
+    note="Trusted: Coq kernel, rs2v.py for one function, harness + driver. Modelled not verified: HashMap as association list, u64 as unbounded N, of the GossipMembershipManager layer: signed envelopes, geometric target selection, callbacks, wall-clock timeouts.",
 )
